@@ -63,27 +63,30 @@ def est_cells(ra1, dec1, cs):
 
 
 BRD_EVERY = 17
-PROTOCOL_MAX_CELLS = 5e4
+PROTOCOL_MAX_CELLS = 1e5
+GRID_MEMORY = 4000
 
 
 class OutsideWorkload(Exception):
     """raised instead of a call that the buffer-reuse monitor composed from two calls and that no generator would make"""
 
 
-def grid_estimate(ra1, dec1, m, cs):
-    """upper estimate of the number of cells of the grid for list 1 and chunk size cs (own arithmetic: Dec extent, and the RA
-    arc outside the largest RA gap when that gap holds a multiple of 60 deg - the trial offsets - else all around)."""
+def list1_key(ra1, dec1):
+    a, d = np.asarray(ra1), np.asarray(dec1)
+    return (a.dtype.str, d.dtype.str, a.shape, np.ascontiguousarray(a).tobytes(), np.ascontiguousarray(d).tobytes())
+
+
+def grid_bound(dec1, c):
+    """upper bound of the number of cells of a grid of chunk size c for a first list with these declinations, whatever its
+    RAs and however the RA offset is chosen: (Dec extent / c + 3) slices of at most 360 / c + 3 cells (a cell is never
+    narrower than c in RA).  inf when it cannot be said."""
     try:
-        c = eff_cs(float(m), None if cs is None else float(cs))
-        ra = np.sort(np.mod(np.asarray(ra1, dtype='d').ravel(), 360.0))
         dec = np.asarray(dec1, dtype='d').ravel()
-        if not (c > 0.0) or ra.size == 0 or not (np.all(np.isfinite(ra)) and np.all(np.isfinite(dec))):
-            return 0.0                       # not a grid question: the code under test answers (raises) by itself
-        gap = float(max(np.diff(ra).max(initial=0.0), ra[0] + 360.0 - ra[-1]))
-        arc = 360.0 - gap if gap >= 60.0 else 360.0
-        return (float(dec.max() - dec.min()) / c + 3.0) * (arc / c + 3.0)
+        if not (c > 0.0) or dec.size == 0 or not np.all(np.isfinite(dec)):
+            return float('inf')
+        return (float(dec.max() - dec.min()) / c + 3.0) * (360.0 / c + 3.0)
     except Exception:
-        return 0.0
+        return float('inf')
 
 
 def perm_from_seed(seed, n):
@@ -173,20 +176,35 @@ class C04(Check):
         # The buffer-reuse monitor repeats a call with the arguments of two observed calls MIXED ("same lists, another match
         # length / chunk size").  A mixture can leave the workload's domain by orders of magnitude - a chunk size of arcseconds
         # for a list that spans tens of degrees is 1e9 cells, and `chunks.__init__` then runs for minutes (seen as a `returns`
-        # alarm on the unchanged tree, quick tier seed 0, caused by the monitor alone).  Calls the monitor makes on its own are
-        # therefore refused - by an exception, which the monitor compares like any other answer - when the grid they ask for is
-        # larger than any grid the generators ask for.  Calls of the workload itself are never touched.
+        # alarm on the unchanged tree, quick tier seed 0 and thorough tier seed 1, caused by the monitor alone).  The cost of a
+        # call is governed by its grid, which depends on list 1 and the chunk size only.  A call the monitor makes on its own
+        # is let through when the workload itself has asked for a grid of the same list 1 (same bytes) with a chunk size no
+        # larger, or when (Dec extent / c + 3)(360 / c + 3) - an upper bound whatever the RAs - is at most 1e5 cells; otherwise
+        # it is refused by an exception, which the monitor compares like any other answer.  Calls of the workload itself are
+        # only looked at (list 1 and chunk size remembered), never touched.
         self._orig_spherematch = orig_sm = SG.spherematch
         self.brd_calls = {'made': 0, 'refused': 0}
+        self._grids = {}
 
         @functools.wraps(orig_sm)
         def spherematch(*a, **k):
-            if chk.brd.in_protocol:
+            try:
                 d = dict(zip(('ra1', 'dec1', 'ra2', 'dec2', 'matchlength', 'chunksize'), a), **k)
-                if grid_estimate(d.get('ra1'), d.get('dec1'), d.get('matchlength'), d.get('chunksize')) > PROTOCOL_MAX_CELLS:
+                c = d.get('chunksize')
+                c = eff_cs(float(d['matchlength']), None if c is None else float(c))
+                key = list1_key(d['ra1'], d['dec1'])
+            except Exception:
+                key = c = None
+            if chk.brd.in_protocol:
+                known = chk._grids.get(key) if key is not None else None
+                if not ((known is not None and c >= known) or (key is not None and grid_bound(d['dec1'], c) <= PROTOCOL_MAX_CELLS)):
                     chk.brd_calls['refused'] += 1
-                    raise OutsideWorkload('mixture of two calls asks for a grid outside the workload')
+                    raise OutsideWorkload('mixture of two calls asks for a grid the workload never asked for')
                 chk.brd_calls['made'] += 1
+            elif key is not None and c > 0.0:
+                if len(chk._grids) >= GRID_MEMORY:
+                    chk._grids.pop(next(iter(chk._grids)))
+                chk._grids[key] = min(chk._grids.pop(key, c), c)
             return orig_sm(*a, **k)
         SG.spherematch = spherematch
         self.brd.attach(self.rec, SG, 'spherematch', every=BRD_EVERY)
@@ -704,11 +722,13 @@ class C04(Check):
                     L = gcs / 4.0 * rng.choice([1.0, 0.999, 0.5])
                 steps.append({'op': 'group', 'l1': 0 if rng.random() < 0.85 else 1, 'm': L, 'cs': gcs})
             r = rng.random()
+            j2 = 0 if r < 0.6 else rng.randrange(len(l2))
             steps.append({'op': 'match', 'l1': 0 if rng.random() < 0.88 else 1,
-                          'l2': 0 if r < 0.6 else rng.randrange(len(l2)), 'm': m, 'cs': cs,
+                          'l2': j2, 'm': m, 'cs': cs,
                           'k': rng.choice([0, 0, 0, 0, 0, 1, 2]),
                           'p1': rng.getrandbits(32) if rng.random() < 0.12 else None,
-                          'p2': rng.getrandbits(32) if rng.random() < 0.12 else None})
+                          'p2': rng.getrandbits(32) if rng.random() < 0.12 else None,
+                          'swap': rng.random() < 0.08 and len(l2[j2]['ra']) >= 2})      # the two lists in each other's place
         return {'m': m_max, 'cs': cs_list[0], 'k': 0, 'kind': kind, 'l1': l1, 'l2': l2, 'steps': steps,
                 'same_objects': same_objects, 'variants': []}
 
@@ -1332,6 +1352,11 @@ class C04(Check):
                 continue
             i2 = int(st['l2'])
             a2, d2 = L2[i2]
+            if st.get('swap'):               # the second list in the place of the first: ids 2.. name it in `history`
+                (a1, d1), (a2, d2) = (a2, d2), (a1, d1)
+                i1, i2 = 2 + i2, 100 + i1
+                n1 = a1.size
+                out.count('same_lists_swapped_calls')
             n2 = a2.size
             k = int(st['k'])
             ecs = eff_cs(m, None if cs is None else float(cs))
@@ -1372,7 +1397,7 @@ class C04(Check):
             out.count('cross_cell_true_pairs', cross)
             if permuted:
                 out.count('same_lists_permuted_calls')
-            if i1 == 1 or i2 == 1:
+            if not st.get('swap') and (i1 == 1 or i2 == 1):
                 out.count('same_lists_twin_calls')
             if prior:
                 out.count('same_lists_calls_after_a_call_with_the_same_list1_and_chunksize')
@@ -1394,10 +1419,11 @@ class C04(Check):
                 out.count('same_lists_calls_after_another_chunksize')
             nonpair_near = int((~maybe & (Sf < 2.0 * m)).sum())
             nontrivial = nontrivial or (nsure >= 1 and nonpair_near >= 1 and cross >= 1)
-            tag = 'step %d of %d on the same values (list 1%s x list 2 #%d, m=%r, cs=%r, k=%d%s; %d earlier call(s) with this list 1 and ' \
-                  'chunk size, lengths %s)' % (si, len(case['steps']), 'ab'[i1], i2, m, cs, k, ', permuted' if permuted else '',
+            who = ('list 2 #%d x list 1%s (swapped)' % (i1 - 2, 'ab'[i2 - 100])) if st.get('swap') else 'list 1%s x list 2 #%d' % ('ab'[i1], i2)
+            tag = 'step %d of %d on the same values (%s, m=%r, cs=%r, k=%d%s; %d earlier call(s) with this list 1 and ' \
+                  'chunk size, lengths %s)' % (si, len(case['steps']), who, m, cs, k, ', permuted' if permuted else '',
                                               len(prior), [h[2] for h in prior][:6])
-            pseudo = {'ra1': a1, 'dec1': d1, 'ra2': a2, 'dec2': d2}
+            pseudo = {'ra1': a1.tolist(), 'dec1': d1.tolist(), 'ra2': a2.tolist(), 'dec2': d2.tolist()}
             with np.errstate(all='ignore'):
                 self._judge(out, res, p1, p2, n1, n2, S, Sf, sure, maybe, m, k, tag, pseudo)
             history.append((i1, ecs, m, 'match', i2))
